@@ -287,6 +287,32 @@ def work_tol(job):
                                       {'model': m.describe(), 'x': p, 'violation_magnitude': mag, 'reference_value': ref, 'opts': opts, 'answer': v}, None))
                     elif exp: st['violations_expected_and_reported'] += 1
                     else: st['clean_expected_and_clean'] += 1
+    # large relative tolerances on rows with a small right-hand side: the relative violation is measured against the bound, on
+    # the upper and on the lower side alike (y + x <= 1, y + x >= 1, 1 <= y + x <= 1.5)
+    V2 = [(0.0, 10.0, False, 0.5), (-5.0, 5.0, True, 1.0), (0.0, 1.0, True, 1.0)]
+    for rname, lo, hi in (('<=1', -INF, 1.0), ('>=1', 1.0, INF), ('in[1,1.5]', 1.0, 1.5)):
+        m2 = Model(V2, acons=[(None, {0: 1.0, 1: 1.0}, lo, hi)]); nl2 = m2.nl()
+        for fr in (0.5, 0.25, 0.05):
+            opts = 'sol:chk:feastolrel=%g' % fr
+            r = _srv.request('convert', nl=nl2, opts=opts, acc=ACC_NATIVE)
+            st['conversions'] += 1
+            if r.get('status') != 'ok': continue
+            for body in (0.2, 0.4, 0.6, 0.7, 0.9, 1.0, 1.2, 1.3, 1.5, 1.8, 2.2, 2.6, 3.5):
+                mag, ref = (body - hi, hi) if body > hi else (lo - body, lo) if body < lo else (0.0, 1.0)
+                rel = mag / abs(ref)
+                if mag > 0 and not (rel > 1.15 * fr or rel < fr / 1.15): continue     # away from the threshold
+                exp = mag > 1e-6 and rel > fr
+                pt = [body, 0.0, 0.0]
+                v = _srv.request('check', x=','.join(repr(float(t)) for t in pt), objs='', infeas='0')
+                st['checks'] += 1
+                got = not v.get('ok')
+                classes.add('native|tol|smallrhs %s|fr=%s|exp=%d' % (rname, fr, exp))
+                if got != exp:
+                    viols.append(('C07 %s of a row violation (row y+x %s) with sol:chk:feastolrel=%s: relative violation is measured against the bound' %
+                                  ('missed-violation' if exp else 'spurious-violation', rname, fr),
+                                  {'model': m2.describe(), 'x': pt, 'violation_magnitude': mag, 'reference_value': ref, 'opts': opts, 'answer': v}, None))
+                elif exp: st['violations_expected_and_reported'] += 1
+                else: st['clean_expected_and_clean'] += 1
     return dict(st), viols[:20], sorted(classes), {'family': 'tolerances', 'model': m.describe()}
 
 
